@@ -49,12 +49,16 @@ func ZZ_C05_comp() {
 	raw := make([]byte, 2)
 	zzGateOpen = true
 	var fw [16]int64
-	var at [16]int64
+	var at [16]int64 // tick of frame t
+	ticks := int64(0)
 	for t := 0; t < K; t++ {
+		// clock advances by whole fill intervals (sub-tick timing is covered by the
+		// throttle-level jobs): instant = ticks * fillInterval
 		d := zzI64("d", t)
-		zzAssume(0 <= d && d < 1<<44)
-		zzCompNow += d
-		at[t] = zzCompNow
+		zzAssume(0 <= d && d < 1<<16)
+		ticks += d
+		zzCompNow = ticks * fi
+		at[t] = ticks
 		zzMotionBit = zzBool("m", t)
 		base.writes = 0
 		h.bad, h.seq, h.t = false, t, t
@@ -69,7 +73,7 @@ func ZZ_C05_comp() {
 				if i == 0 {
 					zzReach("comp: more frames than bucket+2 since the start")
 				}
-				zzAssert((sum-cap-2)*fi <= (zzCompNow-at[i])*q, "C05: composed with the real motion processor, frames reaching storage in any interval <= bucket size + refill earned + 2")
+				zzAssert(sum-cap-2 <= (ticks-at[i])*q, "C05: composed with the real motion processor, frames reaching storage in any interval <= bucket size + refill earned + 2")
 			}
 		}
 	}
